@@ -13,6 +13,7 @@ import (
 	"context"
 	"fmt"
 	"math/rand/v2"
+	"net"
 	"net/netip"
 	"sync"
 	"time"
@@ -20,15 +21,16 @@ import (
 	"github.com/bits-and-blooms/bloom/v3"
 	"github.com/daeuniverse/dae/common/consts"
 	"github.com/daeuniverse/dae/component/dns"
+	"github.com/daeuniverse/dae/component/sniffing"
 	"github.com/daeuniverse/dae/config"
 	vk "github.com/daeuniverse/dae/verifkit"
 	dnsmessage "github.com/miekg/dns"
 )
 
 func verifC18KnowledgeHistories(m *vk.Monitor) {
-	n := vk.Scale(24, 300)
+	n := vk.Scale(72, 600)
 	var wg sync.WaitGroup
-	sem := make(chan struct{}, 24)
+	sem := make(chan struct{}, 36)
 	for i := 0; i < n; i++ {
 		wg.Add(1)
 		sem <- struct{}{}
@@ -97,10 +99,12 @@ func verifC18KnowledgeHistory(m *vk.Monitor, id int) {
 		t0 := time.Now()
 		target, reroute, dialIp := cp.ChooseDialTarget(consts.OutboundUserDefinedMin, dst, name)
 		t1 := time.Now()
-		// lower bound of "some cached answer still inside its original TTL"
+		// "some cached answer is still inside its original TTL": the latest original deadline among
+		// the answers currently cached (whichever was stored last; a later, shorter-lived answer of
+		// another resolver does not make the name less genuine)
 		var minCachedEnd time.Time
 		for _, e := range cached {
-			if minCachedEnd.IsZero() || e.origEnd.Before(minCachedEnd) {
+			if minCachedEnd.IsZero() || e.origEnd.After(minCachedEnd) {
 				minCachedEnd = e.origEnd
 			}
 		}
@@ -130,11 +134,29 @@ func verifC18KnowledgeHistory(m *vk.Monitor, id int) {
 		}
 	}
 	steps := 3 + r.IntN(5)
+	// a third of the histories start with the sibling pattern: a long-lived answer, then a
+	// shorter-lived answer to the same question from another resolver, then a probe after the
+	// shorter one's original TTL and well inside the longer one's
+	script := []int{}
+	if id%3 == 0 {
+		script = []int{0, 0, 8}
+		steps += 3
+	}
 	for s := 0; s < steps && m.Violations() < 5; s++ {
-		switch op := r.IntN(10); {
+		op := r.IntN(10)
+		if s < len(script) {
+			op = script[s]
+		}
+		switch {
 		case op < 4 || len(cached) == 0: // resolve through dae via one resolver
 			res := resolvers[r.IntN(len(resolvers))]
 			ttl := uint32(1 + r.IntN(2))
+			if len(cached) == 0 && r.IntN(2) == 0 {
+				ttl = 4 // a long-lived first answer, so that later, shorter-lived siblings expire inside it
+			}
+			if s < len(script) {
+				res, ttl = resolvers[s], []uint32{4, 1}[s]
+			}
 			rr, _ := dnsmessage.NewRR(fmt.Sprintf("%s. %d IN A 203.0.113.10", name, ttl))
 			if err := ctrl.UpdateDnsCacheTtlWithKey(keyOf(res), dnsmessage.Fqdn(name), dnsmessage.TypeA, []dnsmessage.RR{rr}, nil, nil, int(ttl)); err != nil {
 				m.Inconclusive("UpdateDnsCacheTtlWithKey: %v", err)
@@ -164,6 +186,9 @@ func verifC18KnowledgeHistory(m *vk.Monitor, id int) {
 			hist = append(hist, "janitor")
 		case op < 9:
 			d := time.Duration(100+r.IntN(500)) * time.Millisecond
+			if r.IntN(3) == 0 || s < len(script) {
+				d = time.Duration(1050+r.IntN(300)) * time.Millisecond // just past a 1 s answer
+			}
 			time.Sleep(d)
 			hist = append(hist, fmt.Sprintf("sleep %v", d))
 		default:
@@ -185,5 +210,42 @@ func verifC18KnowledgeHistory(m *vk.Monitor, id int) {
 	}
 	if m.WantSample() {
 		m.Sample(map[string]any{"knowledge_history": hist, "fixed_domain_ttl": fixedKind})
+	}
+}
+
+// verifC18ViaSniffer: the value ChooseDialTarget gets is what the sniffers hand over, i.e. the
+// Host header / SNI after sniffing.NormalizeDomain. For Host values written in every form the
+// statement names (name, name:port, IPv4, IPv4:port, IPv6 literal with and without brackets,
+// [v6]:port, upper case, trailing dot) the target in domain+ / domain++ must be the written host
+// (lower-cased, without brackets, port and trailing dot) joined with the destination port: a
+// well-formed host:port that net.SplitHostPort takes apart into exactly those two.
+func verifC18ViaSniffer(m *vk.Monitor, cp *ControlPlane) {
+	type hv struct{ written, host string }
+	vals := []hv{
+		{"example.com", "example.com"}, {"Example.COM", "example.com"}, {"example.com:8443", "example.com"}, {"example.com.", "example.com"},
+		{"1.2.3.4", "1.2.3.4"}, {"1.2.3.4:8080", "1.2.3.4"},
+		{"2001:db8::1", "2001:db8::1"}, {"2001:DB8::1", "2001:db8::1"}, {"::1", "::1"}, {"::ffff:192.0.2.7", "::ffff:192.0.2.7"}, {"2001:db8::", "2001:db8::"},
+		{"[2001:db8::1]", "2001:db8::1"}, {"[2001:db8::1]:8443", "2001:db8::1"}, {"[::ffff:192.0.2.7]:80", "::ffff:192.0.2.7"},
+	}
+	saved := cp.dialMode
+	defer func() { cp.dialMode = saved }()
+	for _, mode := range []consts.DialMode{consts.DialMode_DomainPlus, consts.DialMode_DomainCao} {
+		cp.dialMode = mode
+		for _, dst := range []netip.AddrPort{netip.MustParseAddrPort("198.51.100.1:443"), netip.MustParseAddrPort("[2001:db8:1::1]:8080")} {
+			for _, v := range vals {
+				sniffed := sniffing.NormalizeDomain(v.written)
+				target, _, _ := cp.ChooseDialTarget(consts.OutboundUserDefinedMin, dst, sniffed)
+				m.Eval(1)
+				m.Count("via_sniffer_cells", 1)
+				m.Distinct(fmt.Sprintf("via-sniffer|%s|%s|%v", mode, v.written, dst.Addr().Is4()))
+				h, p, err := net.SplitHostPort(target)
+				want := net.JoinHostPort(v.host, fmt.Sprint(dst.Port()))
+				if err != nil || h != v.host || p != fmt.Sprint(dst.Port()) {
+					m.Violation("via-sniffer/wrong-or-malformed-target", fmt.Sprintf("Host %q (handed over by the sniffer as %q), dial_mode %s: target %q, want %q", v.written, sniffed, mode, target, want),
+						map[string]any{"host_header": v.written, "sniffed": sniffed, "dial_mode": fmt.Sprint(mode), "destination": dst.String(), "target": target})
+					return
+				}
+			}
+		}
 	}
 }
